@@ -271,7 +271,7 @@ def explore(ctx):
         cases.append(('TRIM', spacey(rng) if rng.random() < 0.7 else s))
         old = rstr(rng, 0, 3, 'abAB 1é') if rng.random() < 0.8 else (s[rng.randint(0, L):][:rng.randint(0, 3)] if L else '')
         base = rstr(rng, 0, 10, 'abAB 1é') if rng.random() < 0.7 else s
-        cases.append(('SUBSTITUTE', base, old, rstr(rng, 0, 3, 'xyab '), rng.choice([None, None, 1, 2, 3, 0, -1, 7])))
+        cases.append(('SUBSTITUTE', base, old, rstr(rng, 0, 3, 'xyab ' if rng.random() < 0.6 else 'xa\\\\1g<0>&$.n'), rng.choice([None, None, 1, 2, 3, 0, -1, 7])))
     # case functions: exhaustive per code point of the generated table's domain
     sys.path.insert(0, os.path.join(VERIF, 'tools', 'gen'))
     import casetables
@@ -302,8 +302,8 @@ def explore(ctx):
             s = rng.choice(LOOKALIKES)
         if rng.random() < 0.15:
             t = rng.choice(LOOKALIKES)
-        old = rstr(rng, 1, 3, 'abAB 1') if rng.random() < 0.5 else (s[rng.randint(0, len(s)):][:rng.randint(1, 3)] if s else 'a')
-        base_new = rstr(rng, 0, 3, 'xyab ')
+        old = rstr(rng, 1, 3, 'abAB 1' if rng.random() < 0.7 else 'a.*+?[(^$|\\\\') if rng.random() < 0.5 else (s[rng.randint(0, len(s)):][:rng.randint(1, 3)] if s else 'a')
+        base_new = rstr(rng, 0, 3, 'xyab ' if rng.random() < 0.6 else 'xa\\\\1g<0>&$.n')
         work.append(('string', (s, rng.randint(-2, len(s) + 5), t, old, base_new, rng.randint(0, 5))))
     work.append(('string', (u'aİb', 1, 'x', 'a', '', 1)))
     for _ in range(N // 10):
@@ -337,7 +337,7 @@ def search(ctx, proof, res):
     for _ in range(30000):
         s = rstr(rng) if rng.random() < 0.6 else spacey(rng)
         old = rstr(rng, 1, 3, 'abAB 1') if rng.random() < 0.5 else (s[rng.randint(0, len(s)):][:rng.randint(1, 3)] if s else 'a')
-        work.append(('string', (s, rng.randint(-2, len(s) + 5), rstr(rng, 0, 5), old, rstr(rng, 0, 3, 'xyab '), rng.randint(0, 5))))
+        work.append(('string', (s, rng.randint(-2, len(s) + 5), rstr(rng, 0, 5), old, rstr(rng, 0, 3, 'xyab ' if rng.random() < 0.6 else 'xa\\\\1g<0>&$.n'), rng.randint(0, 5))))
     for vs in pmap(_worker, work):
         for (k, c, w, cls, e, g) in vs:
             R.violate({k: list(c) if isinstance(c, tuple) else c}, w, cls, repr(e), repr(g))
